@@ -43,7 +43,9 @@ Record cfg : Type := mkCfg {
   g_dont_convert_rich : bool;   (* screen->dontConvertRichCursorToXCursor *)
   g_xvp : bool;                 (* screen->xvpHook != NULL *)
   g_utf8 : bool;                (* screen->setXCutTextUTF8 != NULL *)
-  g_ledhook : bool              (* screen->getKeyboardLedStateHook != NULL *)
+  g_ledhook : bool;             (* screen->getKeyboardLedStateHook != NULL *)
+  g_reset_extclip : bool        (* the source resets enableExtendedClipboard in SetEncodings (repair of
+                                   F21, notes/fix_C03_3.diff); decided from the source text on every run *)
 }.
 
 (* messages written immediately while the SetEncodings list is being read *)
@@ -54,10 +56,10 @@ Definition is_pixel_enc (e : Z) : bool :=
   (e =? enc_Zlib) || (e =? enc_ZRLE) || (e =? enc_ZYWRLE) || (e =? enc_Tight) || (e =? enc_TightPng).
 
 (* "Reset all flags to defaults" *)
-Definition reset_caps (c : caps) : caps :=
+Definition reset_caps (g : cfg) (c : caps) : caps :=
   mkCaps (-1) false false false false false false false false false false false false
-         (-1) (c_zliblevel c) (c_cursor_moved c) (c_extclip c) (c_ready c) (c_fbpending c)
-         (c_lastled c) (c_xvp c) (c_named c).
+         (-1) (c_zliblevel c) (c_cursor_moved c) (if g_reset_extclip g then false else c_extclip c)
+         (c_ready c) (c_fbpending c) (c_lastled c) (c_xvp c) (c_named c).
 
 Definition set_pref c v := mkCaps v (c_copyrect c) (c_newfbsize c) (c_extdesktop c) (c_cursor_changed c)
   (c_richcursor c) (c_cursorpos c) (c_cursorshape c) (c_lastrect c) (c_led c) (c_suppmsgs c) (c_suppencs c)
@@ -187,7 +189,7 @@ Fixpoint apply_encs (g : cfg) (c : caps) (l : list Z) : caps * list imm :=
 (* the whole rfbSetEncodings case (all nEncodings entries were readable) *)
 Definition set_encodings (g : cfg) (c : caps) (l : list Z) : caps * list imm :=
   let last := c_pref c in                       (* lastPreferredEncoding (-1 if none) *)
-  let '(c1, out) := apply_encs g (reset_caps c) l in
+  let '(c1, out) := apply_encs g (reset_caps g c) l in
   let c2 := if c_pref c1 =? -1
             then (if last =? -1 then set_pref c1 enc_Raw else set_pref c1 last)
             else c1 in
@@ -226,17 +228,22 @@ Definition pixel_enc_allowed (c : caps) (e : Z) : bool :=
   (e =? enc_Raw) || (existsb (Z.eqb e) (c_named c) && is_pixel_enc e).
 
 (* ---------------------------------------------------------------- other events that change the state *)
-(* rectSwapIfLEAndClip for an unscaled client: the request is dropped iff x or y lies beyond
-   the framebuffer (uint16 underflow test) *)
-Definition fur_accepted (fbw fbh x y : Z) : bool := (x <=? fbw) && (y <=? fbh).
+(* rectSwapIfLEAndClip for an unscaled client (uint16_t *w compared with the int width - x, the
+   assignment wraps) followed by the repair of F4 (commit d5a464d: "ignore framebuffer update
+   requests of zero width or height").  None = the request is dropped without any effect. *)
+Definition clip_request (fbw fbh x y w h : Z) : option (Z * Z * Z * Z) :=
+  let w1 := if w >? fbw - x then (fbw - x) mod 65536 else w in
+  if w1 >? fbw - x then None
+  else
+    let h1 := if h >? fbh - y then (fbh - y) mod 65536 else h in
+    if h1 >? fbh - y then None
+    else if (w1 =? 0) || (h1 =? 0) then None
+    else Some (x, y, w1, h1).
 
-(* the request is empty after rectSwapIfLEAndClip's clipping (w or h = 0) *)
-Definition fur_empty (fbw fbh x y w h : Z) : bool :=
-  (Z.min w (fbw - x) =? 0) || (Z.min h (fbh - y) =? 0).
+Definition fur_accepted (fbw fbh x y w h : Z) : bool :=
+  match clip_request fbw fbh x y w h with Some _ => true | None => false end.
 
-(* case rfbFramebufferUpdateRequest.  [accepted] = passed the clip test and -- only if the source
-   contains the "ignore empty requests" repair of F4 (detected by props/C03.py on every run) --
-   is not empty: a dropped request has no effect at all *)
+(* case rfbFramebufferUpdateRequest; [accepted] = the request survived clip_request *)
 Definition on_fur (c : caps) (accepted incremental : bool) : caps :=
   if accepted then
     let c1 := set_ready c true in
